@@ -505,6 +505,20 @@ func TestVerifC12(t *testing.T) {
 		hookFault("garbage", 200, nil, "<html>", false, 1, 0)
 		hookFault("429-numeric", 429, http.Header{"Retry-After": []string{"7"}}, "", false, -1, 7*time.Second)
 		hookFault("429-absent", 429, nil, "", false, -1, 0)
+		if scenario == "rolling" {
+			// the parallel per-revision calls of a rollout: the 429 answers only the call made for the OLD
+			// revision's view of the parent, or only the one for the latest
+			for _, which := range []string{"old", "latest"} {
+				wh := which
+				run(c12Dev{Scenario: scenario, Kind: "hook:429-for-" + wh + "-revision-only"}, nil, func(hc *world.HookCall) (int, http.Header, []byte, error) {
+					isOld := kit.Str(hc.Parsed, "parent", "spec", "template", "ver") == "v1"
+					if isOld == (wh == "old") {
+						return 429, http.Header{"Retry-After": []string{"7"}}, nil, nil
+					}
+					return base.good(hc)
+				}, -1, 7*time.Second)
+			}
+		}
 		// no fault at all: success path
 		run(c12Dev{Scenario: scenario, Kind: "none"}, nil, nil, -1, 0)
 	}
